@@ -414,9 +414,62 @@ fn run_flow(ws: &[&str]) -> String {
     }
 }
 
+fn pseudo_bytes(n: usize, seed: u64) -> Vec<u8> {
+    let mut x = seed | 1;
+    let mut v = Vec::with_capacity(n);
+    while v.len() < n {
+        x ^= x << 13;
+        x ^= x >> 7;
+        x ^= x << 17;
+        v.extend_from_slice(&x.to_le_bytes());
+    }
+    v.truncate(n);
+    v
+}
+
+/// `NETBIG adapter reply_bytes request_bytes framing status`: bodies too large for the line
+/// protocol (pseudo-random, generated on both sides from the sizes); the observation says whether
+/// the server received exactly the request body and the client exactly the reply body
+fn run_big(ws: &[&str]) -> String {
+    if ws.len() != 5 {
+        return BAD.into();
+    }
+    let adapter = ws[0].to_string();
+    let (rn, qn, status): (usize, usize, u16) = match (ws[1].parse(), ws[2].parse(), ws[4].parse()) {
+        (Ok(a), Ok(b), Ok(c)) => (a, b, c),
+        _ => return BAD.into(),
+    };
+    let reply_body = pseudo_bytes(rn, 0x9e3779b97f4a7c15 ^ rn as u64);
+    // the request body is form-shaped: a=<hex-ish letters>
+    let mut req_body = b"a=".to_vec();
+    req_body.extend(pseudo_bytes(qn, 0xabcdef ^ qn as u64).into_iter().map(|b| b'a' + (b % 26)));
+    let reply = Reply { status, ct: Some(b"application/json".to_vec()), framing: ws[3].to_string(), body: reply_body.clone(), fault: "none".into() };
+    let listener = TcpListener::bind("127.0.0.1:0").unwrap();
+    let port = listener.local_addr().unwrap().port();
+    let (done_tx, done_rx) = mpsc::channel();
+    let server = std::thread::spawn(move || serve(listener, reply, port, done_rx));
+    let req = http::Request::builder()
+        .method(http::Method::POST)
+        .uri(format!("http://127.0.0.1:{}/token", port))
+        .header(http::header::ACCEPT, "application/json")
+        .header(http::header::CONTENT_TYPE, "application/x-www-form-urlencoded")
+        .body(req_body.clone())
+        .unwrap();
+    let cli = match with_watchdog(move || call_adapter(&adapter, req)) {
+        Ok(Ok(resp)) => format!("cli: ok {} same={} len={}", resp.status().as_u16(), (resp.body() == &reply_body) as u8, resp.body().len()),
+        Ok(Err(_e)) => "cli: err".to_string(),
+        Err(why) => format!("cli: {}", why),
+    };
+    let _ = done_tx.send(());
+    let seen = server.join().unwrap_or_default();
+    let reqsame = seen.first().map(|s| s.body == req_body).unwrap_or(false);
+    format!("srv:{} reqsame={} | {}", seen.len(), reqsame as u8, cli)
+}
+
 fn run_line(line: &str) -> String {
     let ws: Vec<&str> = line.split(' ').collect();
     match ws.first() {
+        Some(&"NETBIG") => run_big(&ws[1..]),
         Some(&"NET") => run_net(&ws[1..]),
         Some(&"NETFLOW") => run_flow(&ws[1..]),
         _ => BAD.into(),
